@@ -159,6 +159,7 @@ HAND = [
     "structure S = s : ...\n", "structure [1nt] S = s : ...\n", "structure [no-opt] S = s : ...\n",
     "structure [1.5nt] S = s : ...\n", "structure [dummy] S = s : ...\n", "structure [] S = s : ...\n",
     "structure [1nt]S = s : ...\n", "structure[1nt] S = s : ...\n", "structure [1 nt] S = s : ...\n",
+    "structure [1e+06nt] S = s : ...\n", "structure [1e-05nt] S = s : ...\n",
     "structure [1nt] [2nt] S = s : ...\n", "structure S = s + t : ..+..\n", "structure S = s+t : ..+..\n",
     "structure S = s +t: ..+..\n", "structure S = s + t :..+..\n", "structure S = s t + u : ..+..\n",
     "structure S = s + : ..+\n", "structure S = + : +\n", "structure S =  : .\n", "structure S = : .\n",
